@@ -874,7 +874,9 @@ func syncSchedules(c *Ctx) error {
 			}
 			return t
 		}
-		ln := func(p, to string) model.Entry { return model.Entry{Path: p, Type: "symlink", Perm: 0777, Link: to, Mtime: uniqueMtime()} }
+		ln := func(p, to string) model.Entry {
+			return model.Entry{Path: p, Type: "symlink", Perm: 0777, Link: to, Mtime: uniqueMtime()}
+		}
 		dr := func(p string) model.Entry { return model.Entry{Path: p, Type: "dir", Perm: 0755, Mtime: uniqueMtime()} }
 		fl := func(p string) model.Entry { e := newFile(c.Rand, genOpts{}); e.Path = p; return e }
 		shapes := []struct {
@@ -1263,6 +1265,25 @@ func syncFiltered(c *Ctx) error {
 				if err == errUnprivUnsupported {
 					continue
 				}
+				if err != nil {
+					return err
+				}
+				for _, e := range evs {
+					c.Out.Emit(e)
+				}
+				c.Stats.Case(vt.Opaque(in), true)
+			}
+		}
+		// include patterns of variable depth: a directory matched at a depth other than the number of components of the
+		// pattern, with files below it (whoever decides with a fixed-depth test disagrees with the walk)
+		{
+			dr := func(p string) model.Entry { return model.Entry{Path: p, Type: "dir", Perm: 0755, Mtime: uniqueMtime()} }
+			vt3 := model.Tree{dr("a"), dr("a/b"), dr("a/b/bar"), mk("a/b/bar/foo"), dr("a/b/bar/sub"), mk("a/b/bar/sub/deep"), dr("bar"), mk("bar/x"), dr("c"), mk("c/bar"), mk("z")}
+			vt3.Sort()
+			for _, st := range [][3][]string{{{"**/bar"}, nil, nil}, {{"a/**/bar"}, nil, nil}, {{"**/b"}, nil, nil}, {{"*/b/bar"}, nil, nil}, {{"**/bar/foo", "z"}, nil, nil},
+				{{"**/sub"}, nil, nil}, {nil, {"**/bar"}, nil}, {{"a"}, {"**/sub"}, nil}} {
+				in := filteredInput{Src: vt3, CapS: 4, CapR: 4, Origin: "filtered/variableDepthPatterns", Stack: [][3][]string{st}}
+				evs, _, err := runFiltered(c, c.NextCase(), in)
 				if err != nil {
 					return err
 				}
